@@ -160,6 +160,17 @@ PROPS["C13"] = dict(
     assumptions=COMMON_ASSUME,
 )
 
+PROPS["C10"] = dict(
+    title="UDP datagram fidelity and session isolation",
+    level="exploration",
+    technique="end-to-end monitor: per-datagram unique ids + keystream; exactly-once / right-session / right-destination / right-label multiset checker over what origins and clients received",
+    text="UDP paths {SOCKS5 UDP-associate, reverse UDP listener, CONNECT with inline RPFM frames spoken by the harness} x upstream {direct, http hop with inline frames, socks5 hop, QUIC datagrams, QUIC inline} through a two-proxy chain; payload sizes 22..65000 (multi-fragment over QUIC), IPv4 and domain destinations, first and later datagrams of a session in stop-and-wait mode (loss judged), pipelined bursts over concurrent sessions (safety judged), and a client that disappears with a reply in flight and re-binds the same port (bounced reply => receive error on the session socket). Every datagram seen by an origin or a client must be one that was sent, with identical payload, at the addressed origin / owning session, at most once, and replies must be labelled with the replying origin's address.",
+    note="trusted: loopback does not lose paced datagrams (loss is only judged with one datagram in flight per session and large socket buffers); IPv6 destinations need an IPv6 association and are not driven; TPROXY UDP needs netfilter rules",
+    design_ref="DESIGN.md 3 C10",
+    steps=[e2e("c10")],
+    assumptions=COMMON_ASSUME,
+)
+
 NOT_YET = {}
 
 
